@@ -225,6 +225,9 @@ theorem mwOnAcknowledgementPacket_skeleton : Gen.Packets.mwOnAcknowledgementPack
    "rollappPacket := w.savePacket(ctx, packet, transfer, relayer, commontypes.RollappPacket_ON_ACK, acknowledgement)",
    "switch ack.Response.(type) {",
    "case *channeltypes.Acknowledgement_Error:",
+   "if w.isForwarded(ctx, packet) {",
+   "return nil",
+   "}",
    "return w.EIBCDemandOrderHandler(ctx, rollappPacket, transfer.FungibleTokenPacketData)",
    "}",
    "return nil"] := rfl
@@ -244,7 +247,19 @@ theorem mwOnTimeoutPacket_skeleton : Gen.Packets.mwOnTimeoutPacket =
    "return err",
    "}",
    "rollappPacket := w.savePacket(ctx, packet, transfer, relayer, commontypes.RollappPacket_ON_TIMEOUT, nil)",
+   "if w.isForwarded(ctx, packet) {",
+   "return nil",
+   "}",
    "return w.EIBCDemandOrderHandler(ctx, rollappPacket, transfer.FungibleTokenPacketData)"] := rfl
+
+/-- `IBCMiddleware.isForwarded` (x/delayedack/ibc_middleware.go) as mirrored by the model (`p.fwd.isSome`:
+    the packet-forward keeper holds an in-flight record for the packet) -/
+theorem mwIsForwarded_skeleton : Gen.Packets.mwIsForwarded =
+  ["if w.pfm == nil {",
+   "return false",
+   "}",
+   "inFlight, _ := w.pfm.TimeoutShouldRetry(ctx, packet)",
+   "return inFlight != nil"] := rfl
 
 /-- `IBCMiddleware.savePacket` (x/delayedack/ibc_middleware.go) as mirrored by the model -/
 theorem mwSavePacket_skeleton : Gen.Packets.mwSavePacket =
@@ -782,7 +797,7 @@ theorem initTransferStack_skeleton : Gen.Packets.initTransferStack =
    "a.TransferStack = bridgingfee.NewIBCModule(a.TransferStack.(ibctransfer.IBCModule), *a.RollappKeeper, a.DelayedAckKeeper, a.TransferKeeper, *a.TxFeesKeeper)",
    "a.TransferStack = packetforwardmiddleware.NewIBCMiddleware(a.TransferStack, a.PacketForwardMiddlewareKeeper, 0, packetforwardkeeper.DefaultForwardTransferPacketTimeoutTimestamp)",
    "a.TransferStack = denommetadatamodule.NewIBCModule(a.TransferStack, a.DenomMetadataKeeper, a.RollappKeeper)",
-   "call a.DelayedAckMiddleware.Setup(delayedackmodule.WithIBCModule(a.TransferStack), delayedackmodule.WithKeeper(a.DelayedAckKeeper), delayedackmodule.WithRollappKeeper(a.RollappKeeper))",
+   "call a.DelayedAckMiddleware.Setup(delayedackmodule.WithIBCModule(a.TransferStack), delayedackmodule.WithKeeper(a.DelayedAckKeeper), delayedackmodule.WithRollappKeeper(a.RollappKeeper), delayedackmodule.WithForwardKeeper(a.PacketForwardMiddlewareKeeper))",
    "a.TransferStack = a.DelayedAckMiddleware",
    "a.TransferStack = genesisbridge.NewIBCModule(a.TransferStack, a.RollappKeeper, a.TransferKeeper, a.DenomMetadataKeeper)",
    "ibcRouter := ibcporttypes.NewRouter()",
